@@ -4,6 +4,7 @@ assertions yield exactly their payload.
 -/
 import Rpki.Proofs.SlurmLemmas
 import Rpki.Proofs.PrefixOrder
+import Rpki.Proofs.JsonTextTyped
 namespace Rpki.C15
 open Rpki.Slurm Rpki.Prefix Rpki.Consts
 
@@ -72,6 +73,27 @@ theorem no_criteria_no_match (o : Origin) (k : RouterKey) (a : Aspa) (c1 c2 c3 :
 theorem json_roundtrip (f : SlurmFile) (h : f.WF) : SlurmFile.fromJson f.toJson = some f :=
   SlurmFile.roundtrip f h
 
+/-- **JSON text, any tree.** The reference reader gives back the tree a text was written from —
+nested arrays and objects, numbers, strings with every octet value (serde_json's escapes for `"`,
+`\\` and the control characters, everything else as it is); prefixes and Base64 values come back as
+the strings they were written as (`erase`). -/
+theorem json_text_tree_roundtrip (j : Json) : JsonText.parse (JsonText.render j) = some (JsonText.erase j) :=
+  JsonText.parse_render j
+
+/-- **JSON text of a file.** What `SlurmFile::to_string` writes (compared byte for byte with the
+library on every case) is read back — text to tree, the strings under `prefix`, `SKI` and
+`routerPublicKey` through `Prefix::from_str` / the Base64 reader, then the field deserialisers — as the
+file it was written for. -/
+theorem json_text_roundtrip (f : SlurmFile) (hw : f.WF) (ht : JsonText.FileTextWF f) :
+    JsonText.readFile (JsonText.fileText f) = some f := JsonText.readFile_fileText f hw ht
+
+/-- Files with the same text are the same file. -/
+theorem json_text_injective (f g : SlurmFile) (hf : f.WF) (hg : g.WF) (tf : JsonText.FileTextWF f)
+    (tg : JsonText.FileTextWF g) (h : JsonText.fileText f = JsonText.fileText g) : f = g := by
+  have h1 := JsonText.readFile_fileText f hf tf
+  rw [h, JsonText.readFile_fileText g hg tg] at h1
+  cases h1; rfl
+
 /-- Each assertion yields the payload item with exactly its fields, in the order
 prefix – BGPsec – ASPA. -/
 theorem assertions_payload (a : Assertions) :
@@ -95,5 +117,13 @@ example : (SlurmFile.mk 1 exFilters ⟨[], [], none⟩).WF := by
   refine ⟨Or.inl rfl, ⟨by simp [exFilters], ?_, by simp [exFilters]⟩, by simp, by simp, by simp⟩
   intro x hx; simp [exFilters] at hx; subst hx
   exact ⟨by simp [okOptU32, U32], by simp⟩
+
+-- the text hypotheses hold for a file with a prefix filter, and its text is what one expects
+def exFile : SlurmFile := ⟨1, ⟨[⟨some ⟨8, 10 * 2 ^ 120⟩, some 5, some [34, 10]⟩], [], none⟩, ⟨[], [], none⟩⟩
+example : JsonText.FileTextWF exFile := by
+  refine ⟨?_, by simp [exFile], by simp [exFile], by simp [exFile]⟩
+  intro x hx; simp [exFile] at hx; subst hx
+  intro p hp; cases hp
+  exact PfxText.wf_of_newV4 (10 * 2 ^ 24) 8 _ (by omega) (by omega) (by decide)
 
 end Rpki.C15
